@@ -1858,7 +1858,13 @@ fn c16(ctx: &RunCtx) -> i32 {
     let kind_codes: Vec<u32> = (0..=64u32).chain([255, 256, 65_535, 65_536, i32::MAX as u32, 1 << 31, u32::MAX - 1, u32::MAX]).collect();
     let nk = 2 * kind_codes.len() as u64;
     let kc = &kind_codes;
-    let mut agg = run_parallel(ctx.prop, n + 84 + nk, &ctx.known, |i| {
+    let nm: u64 = 3 * 2 * 5 * 3;
+    let mut agg = run_parallel(ctx.prop, n + nm + 84 + nk, &ctx.known, |i| {
+        if i < nm {
+            // kind x codec x target x number of well-formed frames before
+            return codec::c16_malformed_case((i % 3) as u8, (i / 3) % 2 == 0, ((i / 6) % 5) as u8, [1usize, 0, 3][((i / 30) % 3) as usize]);
+        }
+        let i = i - nm;
         if i < 84 {
             return codec::c16_wire_deadline_case((i / 2) as usize, i % 2 == 0);
         }
